@@ -154,15 +154,16 @@ inline bool lifecycle_S(Rng& r, uint64_t idx)
     SW* sp = &s;
     uint32_t seq = s.seq++;
     uint32_t len = static_cast<uint32_t>(r.range(0, 60));
-    int res = 1; // a blocking queue may park the call: it completes later, always accepted
-    int* rp = &res;
+    // a blocking queue may park the call: it completes later (always accepted), long after this frame is gone, so the
+    // result lives on the heap
+    auto rp = std::make_shared<int>(1);
     run.run_on(s, [lp, inc_idx, sp, seq, len, rp]
                {
                  std::vector<Issue> tmp;
                  *rp = issue_std(tmp, lp->incs[inc_idx].lg, 0, quill::LogLevel::Info, sp->tid, seq, len).res;
                },
                "log");
-    if (res == 1) lw.incs[inc_idx].issued.emplace_back(s.tid, seq); // a dropping queue may have refused it
+    if (*rp == 1) lw.incs[inc_idx].issued.emplace_back(s.tid, seq); // a dropping queue may have refused it
   };
   uint32_t inject_budget = 60;
   g_inject = [&](int p, void const*, uint64_t)
